@@ -2,7 +2,7 @@
 # usage: confirm_mutant.sh <PROP> <n>  -- confirms /tmp/mut_<PROP>/OUT/patch<n>.diff + demo<n>.rs in the scratch
 # worktree /tmp/mut_<PROP> against /repo's current HEAD, and stores it under /verif/seeded/<PROP>_<n>/
 prop=$1; n=$2
-wt=/tmp/mut_$prop; out=$wt/OUT; dest=/verif/seeded/${prop}_$n
+wt=/tmp/mut_$prop; out=$wt/OUT; dest=/verif/seeded/${prop}_${SUFFIX}$n
 [ -f $out/patch$n.diff ] || { echo "no patch"; exit 2; }
 cd $wt || exit 2
 git checkout -q --detach main 2>/dev/null; git reset -q --hard main; git clean -fdq -e OUT -e target
@@ -29,14 +29,14 @@ git reset -q --hard; git clean -fdq -e OUT -e target
 echo "$prop $n: head=$head apply=$applied demo_clean_rc=$clean_rc demo_mut_rc=$mut_rc suite_rc=$suite_rc tests_passed=$passed"
 if [ $clean_rc = 0 ] && [ $mut_rc != 0 ] && [ $suite_rc = 0 ]; then
   mkdir -p $dest; cp $out/patch${n}_rebased.diff $dest/patch.diff; cp $out/demo$n.rs $dest/demo.rs
-  python3 - "$prop" "$n" "$head" "$demo_dir" "$passed" <<'PY'
+  python3 - "$prop" "$n" "$head" "$demo_dir" "$passed" "$SUFFIX" <<'PY'
 import json,sys,re
-prop,n,head,demo_dir,passed=sys.argv[1:6]
+prop,n,head,demo_dir,passed,sfx=sys.argv[1:7]
 readme=open(f"/tmp/mut_{prop}/OUT/README.md").read()
 json.dump({"property":prop,"mutation":int(n),"base_commit":head,"demo_location":demo_dir+"/demo.rs",
  "confirmed":{"suite_passes_with_patch":True,"tests_passed":int(passed or 0),"demo_fails_with_patch":True,"demo_passes_without":True,
               "commands":["cargo test --offline -p <crate> --test demo (clean): pass","git apply patch.diff; cargo test --offline -p <crate> --test demo: FAIL","cargo test --workspace --offline (patched, demo removed): pass"]},
- "needs_to_manifest":"see readme excerpt","readme":readme[:6000]}, open(f"/verif/seeded/{prop}_{n}/meta.json","w"), indent=1)
+ "needs_to_manifest":"see readme excerpt","readme":readme[:6000]}, open(f"/verif/seeded/{prop}_{sfx}{n}/meta.json","w"), indent=1)
 PY
   echo "  stored in $dest"
 else
